@@ -1,6 +1,6 @@
 (* C10 — the shape of the collected parts: every part is a word (a non-empty run of name characters that cannot be extended to
    the right) or one additional symbol; where the collector stops, the next character is neither a name character, nor an
-   additional symbol, nor white space.  The character classes: three code points are both white space and name characters.
+   additional symbol, nor white space.  The character classes: no white space character is a name character (before the repair three code points were both).
    Owner: prover-C10. *)
 From Coq Require Import List NArith Bool Arith Lia.
 From DV Require Import C10.Model C10.Layout.
@@ -9,29 +9,60 @@ Import ListNotations.
 (* ------------------------------------------------------------------ character classes *)
 
 Ltac bool_to_prop H :=
-  unfold is_name_part, is_name_start, is_digit, is_ws, is_vspace, is_add_sym, between in H;
+  unfold is_name_part_orig, is_name_start_orig, is_digit, is_ws, is_vspace, is_add_sym, between in H;
   repeat rewrite ?orb_true_iff, ?andb_true_iff, ?N.leb_le, ?N.eqb_eq in H.
 
-(* U+1680, U+180E and U+FEFF are white space and name characters at once (so are they in lexer.rs and in the grammar of the standard) *)
-Lemma name_part_ws_overlap : forall c, is_name_part c = true -> is_ws c = true -> c = 5760%N \/ c = 6158%N \/ c = 65279%N.
+(* before the repair of is_name_start_char: U+1680, U+180E and U+FEFF were white space and name characters at once (the ranges of the
+   grammar of the standard) *)
+Lemma name_part_ws_overlap_orig : forall c, is_name_part_orig c = true -> is_ws c = true -> c = 5760%N \/ c = 6158%N \/ c = 65279%N.
 Proof. intros c H1 H2. bool_to_prop H1. bool_to_prop H2. lia. Qed.
 
-Lemma overlap_witness : forallb (fun c => is_name_part c && is_ws c) [5760; 6158; 65279]%N = true.
+Lemma overlap_witness_orig : forallb (fun c => is_name_part_orig c && is_ws c) [5760; 6158; 65279]%N = true.
 Proof. vm_compute. reflexivity. Qed.
+
+(* now: a white space character is not a name character *)
+Lemma name_part_not_ws : forall c, is_name_part c = true -> is_ws c = false.
+Proof.
+  intros c H1. destruct (is_ws c) eqn:E; [exfalso|reflexivity].
+  unfold is_name_part, is_name_start in H1. rewrite E in H1. cbn [negb] in H1. rewrite andb_false_r in H1. cbn [orb] in H1.
+  bool_to_prop H1. bool_to_prop E. lia.
+Qed.
+
+Lemma ws_not_name_part : forall c, is_ws c = true -> is_name_part c = false.
+Proof. intros c H. destruct (is_name_part c) eqn:E; [|reflexivity]. rewrite (name_part_not_ws c E) in H. discriminate H. Qed.
+
+(* the name characters are the ones of the grammar less the white space *)
+Lemma name_part_spec : forall c, is_name_part c = is_name_part_orig c && negb (is_ws c).
+Proof.
+  intros c. destruct (is_ws c) eqn:E.
+  - rewrite andb_false_r. apply ws_not_name_part. exact E.
+  - rewrite andb_true_r. unfold is_name_part, is_name_part_orig, is_name_start. rewrite E. cbn [negb]. rewrite andb_true_r. reflexivity.
+Qed.
+
+Lemma name_part_is_orig : forall c, is_name_part c = true -> is_name_part_orig c = true.
+Proof. intros c H. rewrite name_part_spec in H. apply andb_true_iff in H. exact (proj1 H). Qed.
 
 Lemma add_sym_not_ws : forall c, is_add_sym c = true -> is_ws c = false.
 Proof. intros c H1. apply not_true_is_false. intro H2. bool_to_prop H1. bool_to_prop H2. lia. Qed.
 
-Lemma add_sym_not_name_part : forall c, is_add_sym c = true -> is_name_part c = false.
+Lemma add_sym_not_name_part_orig : forall c, is_add_sym c = true -> is_name_part_orig c = false.
 Proof. intros c H1. apply not_true_is_false. intro H2. bool_to_prop H1. bool_to_prop H2. lia. Qed.
+
+Lemma add_sym_not_name_part : forall c, is_add_sym c = true -> is_name_part c = false.
+Proof. intros c H. rewrite name_part_spec, (add_sym_not_name_part_orig c H). reflexivity. Qed.
 
 Lemma name_start_part : forall c, is_name_start c = true -> is_name_part c = true.
 Proof. intros c H. unfold is_name_part. rewrite H. reflexivity. Qed.
 
 Lemma char_classes : forall c,
-  (is_name_part c = true -> is_ws c = true -> c = 5760%N \/ c = 6158%N \/ c = 65279%N) /\
-  (is_add_sym c = true -> is_ws c = false /\ is_name_part c = false).
-Proof. intro c. split; [apply name_part_ws_overlap|]. intro H. split; [apply add_sym_not_ws|apply add_sym_not_name_part]; exact H. Qed.
+  (is_name_part c = true -> is_ws c = false) /\
+  (is_add_sym c = true -> is_ws c = false /\ is_name_part c = false) /\
+  is_name_part c = is_name_part_orig c && negb (is_ws c) /\
+  (is_name_part_orig c = true -> is_ws c = true -> c = 5760%N \/ c = 6158%N \/ c = 65279%N).
+Proof.
+  intro c. split; [apply name_part_not_ws|]. split; [|split; [apply name_part_spec|apply name_part_ws_overlap_orig]].
+  intro H. split; [apply add_sym_not_ws|apply add_sym_not_name_part]; exact H.
+Qed.
 
 (* ------------------------------------------------------------------ words and symbols *)
 
